@@ -317,7 +317,11 @@ class FQuot(SymFloat):
             if isinstance(n, int):
                 return round(n / d)
             if n.lo < 0 or n.hi >= (1 << 20):
-                raise Unsupported("round() of a float quotient outside [0, 2^20)")
+                # the lemma is proved for numerators in [0, 2^20): decide that part of the domain, leave the rest undecided
+                from .values import b_and as _and
+                if not bool(_and(n >= 0, n < (1 << 20))):
+                    raise Unsupported("round() of a float quotient outside [0, 2^20)")
+                n = n.refine(0, (1 << 20) - 1)
             lemma_round_half_even(d, 20)
             q, r = divmod(n, d)
             from .values import i_ite, b_or, b_and, i_eq
